@@ -46,9 +46,11 @@ def num(v, tag='f'):
 
 
 # ------------------------------------------------------------------ generation
-def gen_case(rng, kills, nested, nframes=None):
+def gen_case(rng, kills, nested, nframes=None, raises=0.25):
     """kills: weight of kill/start/state traffic (0..1); nested: probability
-    that a body step carries in-body actions."""
+    that a body step carries in-body actions; raises: probability that a
+    finite script ends by raising (SwitchWorld, Quit, an Exception, a
+    BaseException) instead of returning."""
     n = rng.randint(1, 5)
     nframes = nframes or rng.randint(5, 20)
     # 'long' generators cannot finish within the trace (more steps than
@@ -122,7 +124,9 @@ def gen_case(rng, kills, nested, nframes=None):
                             a[1] in longs):
                         acts.append(['start', a[1]])      # kill + start at once
             last = (k == nsteps - 1)
-            if last:
+            if last and rng.random() < raises:
+                res = ['raise', rng.randrange(4)]       # an exception leaves the body
+            elif last:
                 res = ['return', rng.choice([None, 0, 7, -3, g])]
             else:
                 w = rng.choice(waits)
@@ -182,7 +186,24 @@ def gen_case(rng, kills, nested, nframes=None):
 
 
 # ----------------------------------------------------------- implementation
+class _Boom(Exception):
+    pass
+
+
+class _Stop(BaseException):
+    pass
+
+
+def _exc(k):
+    import desper
+    return [_Boom('boom'), desper.SwitchWorld(None), desper.Quit(), _Stop()][k % 4]
+
+
 def _name(ex):
+    import desper
+    for k, cls in enumerate([_Boom, desper.SwitchWorld, desper.Quit, _Stop]):
+        if type(ex) is cls:
+            return 'raised:%d' % k
     n = type(ex).__name__
     return n if n in ('ValueError', 'TypeError', 'KeyError') else 'other:' + n
 
@@ -258,6 +279,8 @@ def run(case):
                     outs.append(do(kind, tg))
                 if res[0] == 'return':
                     return res[1]
+                if res[0] == 'raise':
+                    raise _exc(res[1])
                 yield (None if res[1] is None else num(res[1], *res[2:3]))
         return body()
 
@@ -279,7 +302,7 @@ def run(case):
                     world.process(dt)
                 else:
                     proc.process(dt)
-            except Exception as ex:
+            except (Exception, _Stop) as ex:
                 exc = _name(ex)
             obs.append([cur, exc])
         elif kind == 'value':
@@ -308,6 +331,8 @@ def enc_outcome(o):
         return '(OState %s)' % z(o)
     if o in ('ValueError', 'TypeError', 'KeyError'):
         return 'O' + o
+    if isinstance(o, str) and o.startswith('raised:'):
+        return '(ORaised %s)' % z(int(o[7:]))
     return 'OOther'
 
 
@@ -326,6 +351,8 @@ def enc_scripts(scripts):
         for acts, res in steps:
             if res[0] == 'return':
                 r = '(RReturn %s)' % enc_optz(res[1])
+            elif res[0] == 'raise':
+                r = '(RRaise %s)' % z(res[1])
             elif res[1] is None:
                 r = '(RYield YNone)'
             else:
@@ -432,6 +459,7 @@ def stats(cases, traces):
             if o[0] == 'process':
                 if ob[1] != 'ok':
                     tot['process_exceptions'] += 1
+                    tot['outcomes']['process:' + ob[1]] = tot['outcomes'].get('process:' + ob[1], 0) + 1
                 steps = {g: s for g, s in c['scripts']}
                 for g, k, outs in ob[0]:
                     tot['body_steps'] += 1
@@ -478,7 +506,7 @@ def shrink(case):
         if steps != trivial:
             yield with_steps(trivial)
         for k in range(1, len(steps)):
-            if steps[k - 1][1][0] != 'return':
+            if steps[k - 1][1][0] not in ('return', 'raise'):
                 yield with_steps(steps[:k] + [[[], ['return', None]]])
         for k, (acts, res) in enumerate(steps):
             if acts:
@@ -486,6 +514,8 @@ def shrink(case):
                 if len(acts) > 1:
                     for j in range(len(acts)):
                         yield with_steps(steps[:k] + [[acts[:j] + acts[j + 1:], res]] + steps[k + 1:])
+            if res[0] == 'raise':
+                yield with_steps(steps[:k] + [[acts, ['return', None]]] + steps[k + 1:])
             if res[0] == 'yield' and res[1] is not None:
                 yield with_steps(steps[:k] + [[acts, ['yield', None]]] + steps[k + 1:])
                 if len(res) > 2:
